@@ -403,6 +403,8 @@ def run_shard(spec):
                 variants = [(ca, 'listpair') for ca in [None] + list(range(len(st)))]
                 if si == 0 and (has_dot(t1) or has_dot(t2)):
                     variants.append((None, 'functor'))     # t2's '.' cells built with functor('.', [h, t])
+                if si == 0:
+                    variants.append((None, 'textnames'))   # t2's atom and functor names are instances of a str subclass
                 for create_at, dots2 in variants:
                     idx = (si, i1, i2, -1 if create_at is None else create_at, dots2)
                     acc.n['evaluations'] += 1
